@@ -168,8 +168,8 @@ class Flow:
         in between writes through one of them."""
         return self._unchanged_names(_loads(value), d, at)
 
-    def _unchanged_names(self, names, d, at):
-        for x in names:
+    def _unchanged_names(self, names, d, at, binding=True):
+        for x in (names if binding else ()):
             b1, b2 = self.binder(x, d), self.binder(x, at)
             if b1 is AMBIGUOUS or b1 is not b2:
                 return False
@@ -190,6 +190,9 @@ class Flow:
         if isinstance(d, ast.AST):
             v = def_value(d)
             if v is not None and not isinstance(d, ast.AugAssign):
+                # an object that is changed in place after its definition (xs = []; xs.append(..)) is not its defining expression
+                if not self._unchanged_names({name}, d, at, binding=False):
+                    return d, None
                 return d, v
             # `if c: name = A else: name = B` is the conditional expression `A if c else B`
             if isinstance(d, ast.If) and len(d.body) == 1 and len(d.orelse) == 1:
@@ -318,8 +321,35 @@ def _kth(x, off=0):
     return ast.Subscript(value=copy.deepcopy(x), slice=idx, ctx=ast.Load())
 
 
+_LISTS = {}      # while a function is modelled: local list name -> (k-th element, iterable it was accumulated over)
+
+
+def _norm_getitem(e):
+    """X.__getitem__(i) is X[i]."""
+    class T(ast.NodeTransformer):
+        def visit_Call(self, node):
+            self.generic_visit(node)
+            if isinstance(node.func, ast.Attribute) and node.func.attr == '__getitem__' and len(node.args) == 1 and not node.keywords:
+                return ast.Subscript(value=node.func.value, slice=node.args[0], ctx=ast.Load())
+            return node
+    return ast.fix_missing_locations(T().visit(copy.deepcopy(e)))
+
+
+def _comp_parts(x):
+    return x.generators[0] if isinstance(x, (ast.ListComp, ast.GeneratorExp)) and len(x.generators) == 1 and not x.generators[0].ifs and not x.generators[0].is_async else None
+
+
 def _element(x):
     """k-th element produced by iterating `x` (a sequence): x[k]; for x = e[a:] / e[:-b] / e[a:-b] it is e[a + k]."""
+    if isinstance(x, ast.Name) and x.id in _LISTS:
+        return copy.deepcopy(_LISTS[x.id][0])
+    if isinstance(x, ast.Call) and isinstance(x.func, ast.Name) and x.func.id in ('list', 'tuple', 'iter') and len(x.args) == 1 and not x.keywords:
+        return _element(x.args[0])
+    g = _comp_parts(x)
+    if g is not None:
+        mp = {}
+        if _bind_target(g.target, _element(g.iter), mp):
+            return _subst_names(x.elt, mp)
     if isinstance(x, ast.Call) and isinstance(x.func, ast.Name) and x.func.id == 'zip' and not x.keywords:
         return ast.Tuple(elts=[_element(a) for a in x.args], ctx=ast.Load())
     if isinstance(x, ast.Call) and isinstance(x.func, ast.Name) and x.func.id == 'enumerate' and len(x.args) == 1 and not x.keywords:
@@ -340,6 +370,12 @@ def _element(x):
 
 def _length(x, env):
     """Number of elements iterating `x` yields, as an affine form over len(...) symbols (None: unknown)."""
+    if isinstance(x, ast.Name) and x.id in _LISTS:
+        return _length(_LISTS[x.id][1], env)
+    if isinstance(x, ast.Call) and isinstance(x.func, ast.Name) and x.func.id in ('list', 'tuple', 'iter') and len(x.args) == 1 and not x.keywords:
+        return _length(x.args[0], env)
+    if _comp_parts(x) is not None:
+        return _length(_comp_parts(x).iter, env)
     if isinstance(x, ast.Call) and isinstance(x.func, ast.Name) and not x.keywords:
         if x.func.id == 'zip' and x.args:
             ls = [_length(a, env) for a in x.args]
@@ -573,8 +609,9 @@ class Sx:
     """One symbolic run of `fn` under `scenario` (dict test-key -> bool).  Terms are expressions over the function's inputs;
     the result of an effectful call is a reference `@n` into `self.calls` (evaluation order)."""
 
-    def __init__(self, fn, scenario, consts=None, what=''):
+    def __init__(self, fn, scenario, consts=None, what='', model=None, fi=None):
         self.fn, self.scenario, self.consts, self.what = fn, scenario, consts or {}, what or fn.name
+        self.model, self.fi, self.depth = model, fi, 0
         self.env, self.attrs = {}, {}
         self.calls = []          # call terms, in evaluation order
         self.effects = []        # ('call', n) | ('store', target text, term) | ('setitem', target term, term) | ('loop', For node)
@@ -631,6 +668,9 @@ class Sx:
         if isinstance(e, ast.Call):
             if any(isinstance(a, ast.Starred) for a in e.args) or any(k.arg is None for k in e.keywords):
                 raise Undecided(f'{self.what}: star arguments in {u(e)[:60]}')
+            h = self._helper(e)
+            if h is not None:
+                return self._run_helper(h, e)
             call = ast.Call(func=self.ev(e.func) if isinstance(e.func, ast.Attribute) else e.func, args=[self.ev(a) for a in e.args],
                             keywords=[ast.keyword(arg=k.arg, value=self.ev(k.value)) for k in e.keywords])
             if isinstance(e.func, ast.Name) and e.func.id in SX_PURE and e.func.id not in self.env:
@@ -643,6 +683,63 @@ class Sx:
         if isinstance(e, (ast.JoinedStr, ast.Lambda)):
             return e
         raise Undecided(f'{self.what}: expression {u(e)[:60]} is outside what the path evaluation understands')
+
+    # ----- calls to helpers that are not part of the reference tree (extracted code): their body is run in place
+    def _helper(self, e):
+        from ..inline import known_symbols
+        if self.model is None or self.fi is None or self.depth >= 3:
+            return None
+        f = e.func
+        h = None
+        first = self.fi.params()[0] if self.fi.params() else None
+        if isinstance(f, ast.Attribute) and isinstance(f.value, ast.Name) and f.value.id == first and first in ('self', 'cls') and self.fi.cls is not None and f.value.id not in self.env:
+            h = self.model.find_method(self.fi.cls.qualname, f.attr)
+        elif isinstance(f, ast.Name) and f.id not in self.env:
+            h = self.fi.module.functions.get(f.id)
+        if h is None or h.qualname in known_symbols() or h.node is self.fn:
+            return None
+        a = h.node.args
+        if a.vararg or a.kwarg or isinstance(h.node, ast.AsyncFunctionDef) or any(isinstance(n, (ast.Yield, ast.YieldFrom)) for n in ast.walk(h.node)):
+            return None
+        return h
+
+    def _run_helper(self, h, e):
+        a = h.node.args
+        params = [x.arg for x in a.posonlyargs + a.args]
+        decos = {u(d) for d in h.node.decorator_list}
+        if decos - {'staticmethod', 'classmethod'}:
+            raise Undecided(f'{self.what}: helper {h.qualname} is decorated ({sorted(decos)}): its effect cannot be evaluated')
+        bound = {}
+        if h.cls is not None and 'staticmethod' not in decos:
+            bound[params[0]] = self.ev(e.func.value) if isinstance(e.func, ast.Attribute) else ast.Name(id=params[0], ctx=ast.Load())
+            params = params[1:]
+        if len(e.args) > len(params):
+            raise Undecided(f'{self.what}: call of helper {h.qualname} does not fit its parameters')
+        for p_, v in zip(params, e.args):
+            bound[p_] = self.ev(v)
+        for k in e.keywords:
+            bound[k.arg] = self.ev(k.value)
+        defaults = dict(zip([x.arg for x in a.posonlyargs + a.args][-len(a.defaults):] if a.defaults else [], a.defaults))
+        defaults.update({x.arg: d for x, d in zip(a.kwonlyargs, a.kw_defaults) if d is not None})
+        for p_ in params + [x.arg for x in a.kwonlyargs]:
+            if p_ not in bound:
+                if p_ not in defaults:
+                    raise Undecided(f'{self.what}: call of helper {h.qualname} does not fit its parameters')
+                bound[p_] = defaults[p_]
+        saved = (self.env, self.outcome, self.fn, self.fi)
+        self.env, self.outcome, self.fn, self.fi = bound, None, h.node, h
+        self.depth += 1
+        try:
+            self.run([x for x in h.node.body if not (isinstance(x, ast.Expr) and isinstance(x.value, ast.Constant))])
+            out = self.outcome
+        finally:
+            self.depth -= 1
+            self.env, self.fn, self.fi = saved[0], saved[2], saved[3]
+        if out is not None and out[0] == 'raise':
+            self.outcome = out           # propagates
+            return ast.Constant(value=None)
+        self.outcome = saved[1]
+        return out[1] if out is not None and out[0] == 'return' and out[1] is not None else ast.Constant(value=None)
 
     def _subst(self, e, keep=()):
         """Copy of `e` with locals replaced by their terms (names bound inside `e` or listed in `keep` are left alone)."""
@@ -838,7 +935,7 @@ def _canon_term(t, scenario):
     return ast.fix_missing_locations(T().visit(copy.deepcopy(t)))
 
 
-def sx_paths(fi, consts=None, limit=256):
+def sx_paths(fi, consts=None, limit=256, model=None):
     """Every path of the function: [(scenario, Sx)] - one run per combination of the tests it consults."""
     body = [s for s in fi.node.body if not (isinstance(s, ast.Expr) and isinstance(s.value, ast.Constant))]
     out, todo = [], [{}]
@@ -846,7 +943,7 @@ def sx_paths(fi, consts=None, limit=256):
         sc = todo.pop()
         if len(out) + len(todo) > limit:
             raise Undecided(f'{fi.qualname}: more than {limit} paths')
-        sx = Sx(fi.node, sc, consts, fi.qualname)
+        sx = Sx(fi.node, sc, consts, fi.qualname, model, fi)
         try:
             sx.run(body)
         except _Fork as f:
@@ -1249,7 +1346,14 @@ def check_arith(ctx):
     rep.require(len(fast) == 1, 'ConcatenatedSignatureArray._getitem_slice: fast path not found')
     at = path_atoms(gms[fast[0]])
     rep.add('X4', fsl.site(fast[0]), 'the view fast path is taken only for a non-empty unit-step slice', at == {('eq', '1', step), ('lt', start, stop)}, expected=f'{step} == 1 and {stop} > {start}', found=sorted(at), stmt='fast path condition')
-    oksl = len(slow) == 1 and u(slow[0].value) == f'super()._getitem_slice({sp})'
+    # ... either by delegating to the generic implementation or by doing what it does (X4 generic slice): the positions
+    # np.arange(start, stop, step) of the normalised slice handed to _getitem_int_array
+    direct = f'self._getitem_int_array(np.arange({start}, {stop}, {step}))'
+    oksl = len(slow) == 1 and (u(slow[0].value) == f'super()._getitem_slice({sp})' or u(fls0.value(slow[0].value, slow[0])) == direct
+                               or (isinstance(slow[0].value, ast.Call) and u(slow[0].value.func) == 'self._getitem_int_array' and len(slow[0].value.args) == 1
+                                   and u(fls0.value(slow[0].value.args[0], slow[0])) == f'np.arange({start}, {stop}, {step})'))
+    # (start / stop / step must still be the normalised values there)
+    oksl = oksl and all(fls0.binder(nm, slow[0]) is unpack[0] for nm in (start, stop, step)) if slow and oksl and not u(slow[0].value).startswith('super()') else oksl
     rep.add('X4', fsl.site(slow[0] if slow else None), 'every other slice goes through the generic index-array path', oksl, expected=f'super()._getitem_slice({sp})', found=[u(r.value) for r in slow], stmt='slow path')
     args = fast[0].value.args
     fls = Flow(fsl.node)
@@ -1312,6 +1416,87 @@ def check_arith(ctx):
         rep.add('X4', fi.site(ident[0] if ident else None), f'{fi.cls.node.name}.{fi.name} never returns the collection itself as the selected sub-collection', not ident, expected='a new collection / element',
                 found=[f'return {u(r.value)} under {sorted(path_atoms(guard_map(fi.node)[r]))}' for r in ident] or 'no identity return', stmt=f'{fi.cls.node.name}.{fi.name} identity')
     rep.floor('X4', 'selection handlers', n, 6)
+
+
+def _accumulators(fn, fl):
+    """Lists built by one append per iteration: `xs = []` ... `for v in it: <simple assignments>; xs.append(e)`.
+    -> ({name: (k-th element, iterable)}, [the loops]).  Only top-level statements of the function; a list that is touched in any
+    other way is not modelled."""
+    body = fn.body
+    inits = {}
+    for s in body:
+        if isinstance(s, ast.Assign) and len(s.targets) == 1 and isinstance(s.targets[0], ast.Name) \
+                and ((isinstance(s.value, ast.List) and not s.value.elts) or (isinstance(s.value, ast.Call) and u(s.value.func) == 'list' and not s.value.args and not s.value.keywords)):
+            inits[s.targets[0].id] = s
+    out, loops = {}, []
+    for lp in body:
+        if not isinstance(lp, ast.For) or lp.orelse or not inits:
+            continue
+        mapping, found, ok = {}, {}, _bind_target(lp.target, _element(fl.resolve(lp.iter, lp)), {})
+        _bind_target(lp.target, _element(fl.resolve(lp.iter, lp)), mapping)
+        for st in lp.body:
+            if isinstance(st, ast.Assign) and len(st.targets) == 1 and all(isinstance(n, (ast.Name, ast.Tuple, ast.Store, ast.Load)) for n in ast.walk(st.targets[0])):
+                v = _subst_names(st.value, mapping)
+                t = st.targets[0]
+                if isinstance(t, ast.Name):
+                    mapping[t.id] = v
+                elif isinstance(v, ast.Tuple):
+                    ok = ok and _bind_target(t, v, mapping)
+                else:
+                    ok = False
+            elif isinstance(st, ast.Expr) and isinstance(st.value, ast.Call) and isinstance(st.value.func, ast.Attribute) and st.value.func.attr == 'append' \
+                    and isinstance(st.value.func.value, ast.Name) and st.value.func.value.id in inits and len(st.value.args) == 1 and not st.value.keywords \
+                    and st.value.func.value.id not in found:
+                found[st.value.func.value.id] = _subst_names(st.value.args[0], mapping)
+            else:
+                ok = False
+        if not ok or not found:
+            continue
+        # the lists are used nowhere else before / inside the loop
+        for name in found:
+            uses = [n for x in body[:body.index(lp) + 1] for n in ast.walk(x) if isinstance(n, ast.Name) and n.id == name]
+            if len(uses) != 2 or fl.order[id(inits[name])] > fl.order[id(lp)]:
+                ok = False
+        if ok:
+            loops.append(lp)
+            for name, e in found.items():
+                out[name] = (e, fl.resolve(lp.iter, lp))
+    return out, loops
+
+
+def _plus_one(e):
+    if isinstance(e, ast.BinOp) and isinstance(e.op, ast.Add):
+        if is_const(e.right, 1):
+            return e.left
+        if is_const(e.left, 1):
+            return e.right
+    return None
+
+
+def _is_size_of(e, ip):
+    """`e` is the size of the signature at the k-th requested position: self.sizeof(ip[k]), or the difference of the two bounds
+    around the checked position (what sizeof computes - X4 sizeof)."""
+    pos = f'{ip}[{K}]'
+    if u(e) == f'self.sizeof({pos})':
+        return True
+    if isinstance(e, ast.BinOp) and isinstance(e.op, ast.Sub) and all(isinstance(x, ast.Subscript) and u(x.value) == 'self.bounds' and not isinstance(x.slice, ast.Slice) for x in (e.left, e.right)):
+        hi = _plus_one(e.left.slice)
+        return hi is not None and u(hi) == u(e.right.slice) == f'self._check_index({pos})'
+    return False
+
+
+def _is_element_of(e, ip):
+    """`e` is the signature at the k-th requested position: self._getitem_int(p) or self.values[self.bounds[p] : self.bounds[p + 1]]
+    (X4 element) for p the k-th requested index, as given or bounds-checked."""
+    ps = (f'{ip}[{K}]', f'self._check_index({ip}[{K}])')
+    if isinstance(e, ast.Call) and u(e.func) == 'self._getitem_int' and len(e.args) == 1 and not e.keywords:
+        return u(e.args[0]) in ps
+    if isinstance(e, ast.Subscript) and u(e.value) == 'self.values' and isinstance(e.slice, ast.Slice) and e.slice.step is None and e.slice.lower is not None and e.slice.upper is not None:
+        lo, hi = e.slice.lower, e.slice.upper
+        if all(isinstance(x, ast.Subscript) and u(x.value) == 'self.bounds' and not isinstance(x.slice, ast.Slice) for x in (lo, hi)):
+            h = _plus_one(hi.slice)
+            return h is not None and u(h) == u(lo.slice) and u(lo.slice) in ps
+    return False
 
 
 def _constructs_cls(m, cls_q, name, _depth=0):
@@ -1382,15 +1567,23 @@ def check_subcollections(ctx):
     rep.add('X5', fia.site(un[0] if un else None), 'an index-array selection keeps k-mer parameters and integer type', oku, expected='uninitialized(sizes, self.kmerspec, dtype=self.values.dtype)', found=[u(c) for c in un], stmt='int-array kmerspec/dtype')
     fla = Flow(fia.node)
     out_name = u(next((s.targets[0] for s in fia.node.body if isinstance(s, ast.Assign) and un and s.value is un[0]), None)) if un else None
+    _LISTS.clear()
+    lists, acc_loops = _accumulators(fia.node, fla)
+    _LISTS.update(lists)
     if un:
         un_stmt = next((s for s in stmts_in(fia.node.body) if any(x is un[0] for x in ast.walk(s)) and not isinstance(s, (ast.If, ast.For, ast.While, ast.With, ast.Try))), None)
         sizes = get_arg(un[0], 0, 'lengths')
-        if un_stmt is not None and sizes is not None and sizes is not Ellipsis:
+        if un_stmt is not None and sizes is not None and sizes is not Ellipsis and not (isinstance(sizes, ast.Name) and sizes.id in lists):
             sizes = fla.deref(sizes, un_stmt)       # the list may be bound to a local first
-        oks = isinstance(sizes, ast.ListComp) and len(sizes.generators) == 1 and not sizes.generators[0].ifs and u(sizes.generators[0].iter) == ip \
-            and u(sizes.elt) == f'self.sizeof({u(sizes.generators[0].target)})'
-        rep.add('X5', fia.site(un[0]), 'slot k of the result is sized for the k-th requested signature', oks, expected=f'[self.sizeof(i) for i in {ip}]', found=u(sizes), stmt='result sizes')
-    loops = [s for s in fia.node.body if isinstance(s, ast.For)]
+        # the k-th size, whatever builds the list (comprehension, map, a list filled by one append per iteration)
+        oks, fsz = False, u(sizes)
+        if sizes is not None and sizes is not Ellipsis and (_comp_parts(sizes) is not None or isinstance(sizes, (ast.Name, ast.Call))):
+            el = _norm_getitem(_element(sizes))
+            cn = _length(sizes, {f'len({ip})': sym('n')})
+            oks = _is_size_of(el, ip) and cn == sym('n')
+            fsz = dict(size=u(el), entries=str(cn))
+        rep.add('X5', fia.site(un[0]), 'slot k of the result is sized for the k-th requested signature', oks, expected=f'[self.sizeof(i) for i in {ip}]', found=fsz, stmt='result sizes')
+    loops = [s for s in fia.node.body if isinstance(s, ast.For) and not any(s is a for a in acc_loops)]
     okl, why = False, None
     out_cls = None
     if un and isinstance(un[0].func, ast.Attribute):
@@ -1401,6 +1594,7 @@ def check_subcollections(ctx):
         # the fill loop may live in a method of the result's class, called once on the fresh result (the copy loop shared with
         # the constructor): look at the loop it runs, with the receiver and the arguments put in place of its parameters
         loops = _method_loop(m, fia, fla, out_name, out_cls, rep)
+    rep.require(len(loops) <= 1, f'_getitem_int_array: {len(loops)} loops besides the modelled list accumulations (`{u(loops[0])[:50]}` ...): the rule cannot tell which one fills the result')
     if len(loops) == 1 and out_name is not None and not loops[0].orelse:
         # Model of the fill loop: in iteration k every loop variable is an expression in k (enumerate / zip / range / direct
         # iteration; e[a:] yields e[a + k]).  Slot k of the result is out[k] = out.values[out.bounds[k] : out.bounds[k + 1]]
@@ -1429,8 +1623,7 @@ def check_subcollections(ctx):
                 hook = m.find_method(out_cls, '_getitem_int') if out_cls else None
                 rep.require(hook is not None, f'_getitem_int_array: cannot resolve the class of `{out_name}` to find its _getitem_int')
                 okd = hook.qualname == f'{C}._getitem_int' and Aff.try_of(dst.args[0]) == kk
-            oksrc = isinstance(src, ast.Call) and u(src.func) == 'self._getitem_int' and len(src.args) == 1 and not src.keywords and isinstance(src.args[0], ast.Subscript) \
-                and u(src.args[0].value) == ip and not isinstance(src.args[0].slice, ast.Slice) and Aff.try_of(src.args[0].slice) == kk
+            oksrc = _is_element_of(_norm_getitem(src), ip)
             # every slot is visited: the loop runs len(indices) times (the result has one slot per index, one more bound)
             n = sym('n')
             env = {f'len({ip})': n, f'len({out_name})': n, f'len({out_name}.bounds)': n.plus(1)}
@@ -1440,9 +1633,10 @@ def check_subcollections(ctx):
             rep.require(not (okd and oksrc) or cnt is not None, f'_getitem_int_array: cannot determine how many times the fill loop `for ... in {u(lp.iter)[:60]}` runs')
     rep.add('X5', fia.site(loops[0] if loops else None), 'slot k receives the signature at the k-th requested index (order and repeats preserved)', okl, expected=f'in iteration k: copyto(out[k], self._getitem_int({ip}[k])), k = 0 .. len({ip}) - 1',
             found=why or [u(l)[:80] for l in loops], stmt='fill order')
+    _LISTS.clear()
     fia_rets = [s for s in stmts_in(fia.node.body) if isinstance(s, ast.Return)]
     rep.account_returns('X5', fia, [r for r in fia_rets if u(r.value) == out_name and r is fia.node.body[-1]], 'index-array selection')
-    rep.account_returns('X4', fsl, [s for s in stmts_in(fsl.node.body) if isinstance(s, ast.Return) and (any(x in fast for x in ast.walk(s)) or u(s.value).startswith('super()._getitem_slice('))], 'slice selection')
+    rep.account_returns('X4', fsl, [s for s in stmts_in(fsl.node.body) if isinstance(s, ast.Return) and (any(x in fast for x in ast.walk(s)) or u(s.value).startswith('super()._getitem_slice(') or u(s.value).startswith('self._getitem_int_array('))], 'slice selection')
     fl = m.func(f'{BASE}.SignatureList._getitem_int_array')
     rep.functions.add(fl.qualname)
     ipl = fl.params()[1]
@@ -1453,8 +1647,29 @@ def check_subcollections(ctx):
     rep.add('X5', fl.site(rets[0] if rets else None), 'a list-backed selection keeps k-mer parameters and integer type', okv, expected='SignatureList([...], self.kmerspec, self.dtype)', found=u(v), stmt='list kmerspec/dtype')
     if isinstance(v, ast.Call) and v.args:
         lc = v.args[0]
-        okc = isinstance(lc, ast.ListComp) and u(lc.generators[0].iter) == ipl and not lc.generators[0].ifs and u(lc.elt) == f'self._list[{u(lc.generators[0].target)}]'
-        rep.add('X5', fl.site(rets[0]), 'the selected signatures are taken in index order', okc, expected=f'[self._list[i] for i in {ipl}]', found=u(lc), stmt='list selection')
+        # whatever iterable is handed to the constructor (which makes a list of it - X8): its k-th item is the stored signature at
+        # the k-th requested position, and it has one item per requested position
+        lc = Flow(fl.node).value(lc, rets[0])
+        el = _norm_getitem(_element(lc))
+        cn = _length(lc, {f'len({ipl})': sym('n')})
+        okc = u(el) == f'self._list[{ipl}[{K}]]' and cn == sym('n')
+        rep.require(okc or cn is not None or u(el) != f'self._list[{ipl}[{K}]]', f'SignatureList._getitem_int_array: cannot determine how many items `{u(lc)[:60]}` yields')
+        rep.add('X5', fl.site(rets[0]), 'the selected signatures are taken in index order', okc, expected=f'[self._list[i] for i in {ipl}]', found=dict(item=u(el), items=str(cn)), stmt='list selection')
+    # indexing hooks overridden beyond the ones analysed above are further selection paths: each is decided or named
+    allowed = {f'{C}': {'_getitem_int', '_getitem_slice', '_getitem_int_array'}, f'{BASE}.SignatureArray': set(), f'{BASE}.SignatureList': {'_getitem_int', '_getitem_int_array'}}
+    for cq, names in allowed.items():
+        for name, fo in sorted(m.cls(cq).methods.items()):
+            if not (name.startswith('_getitem_') or name == '__getitem__') or name in names:
+                continue
+            vo = None
+            ro = [r for r in stmts_in(fo.node.body) if isinstance(r, ast.Return)]
+            if cq.endswith('.SignatureList') and name == '_getitem_slice' and len(ro) == 1 and len(fo.params()) == 2:
+                vo = Flow(fo.node).value(ro[0].value, ro[0])
+            rep.require(isinstance(vo, ast.Call) and u(vo.func) == 'SignatureList' and len(vo.args) >= 1, f'{cq}.{name}: an indexing hook is overridden in a way no rule evaluates (selection path outside the analysed ones)')
+            rep.functions.add(fo.qualname)
+            oko = u(Flow(fo.node).value(vo.args[0], ro[0])) == f'self._list[{fo.params()[1]}]' and u(get_arg(vo, 1, 'kmerspec')) == 'self.kmerspec' and u(get_arg(vo, 2, 'dtype')) == 'self.dtype'
+            rep.add('X5', fo.site(ro[0]), 'a list-backed slice is the slice of the stored list (a new collection with the same k-mer parameters and integer type)', oko,
+                    expected=f'SignatureList(self._list[{fo.params()[1]}], self.kmerspec, self.dtype)', found=u(vo), stmt='list slice')
     fli = m.func(f'{BASE}.SignatureList._getitem_int')
     rets = [s for s in fli.node.body if isinstance(s, ast.Return)]
     rep.add('X5', fli.site(), 'a list-backed element is the stored array', len(rets) == 1 and u(rets[0].value) == f'self._list[{fli.params()[1]}]', expected='self._list[i]', found=[u(r.value) for r in rets], stmt='list element')
@@ -1492,7 +1707,7 @@ def _judge(rep, fi, keys, spec, consts=None, consistent=None, rule='X8'):
     """Run the function in every situation (truth values of `keys`) and compare with spec(sc, sx) -> [(aspect, description,
     ok, expected, found)]; one obligation per aspect, violated when some situation deviates."""
     rep.functions.add(fi.qualname)
-    raw = sx_paths(fi, consts)
+    raw = sx_paths(fi, consts, model=getattr(rep, '_model', None))
     # a type test whose "class" is one of the function's own arguments has its operands the wrong way round
     crossed = sorted({k for sc, _ in raw for k in sc if k[0] == 'isinstance' and k not in keys and k[2] in fi.params()})
     if crossed:
@@ -1550,6 +1765,7 @@ def _copy_loop(sx, lp, sc, dst_obj, src_seq, elem_q, m, cls_q):
 def check_construction(ctx):
     """X8: the construction arithmetic every sub-collection and every loaded / converted collection goes through."""
     rep, m = ctx.rep, ctx.model
+    rep._model = m
     rep.rules.setdefault('X8', 'construction: bounds = [0, cumsum(lengths)], values sized by the last bound; constructors store / copy what they are given, slot i <- signature i; '
                          'defaults (kmerspec, dtype, ids, meta) decided per situation by path-by-path evaluation')
     SA = f'{BASE}.SignatureArray'
@@ -1560,7 +1776,7 @@ def check_construction(ctx):
     fu = m.func(f'{SA}._uninit_arrays')
     rep.functions.add(fu.qualname)
     cp, lp_, dp = fu.params()[:3]
-    paths = sx_complete(sx_paths(fu, consts), [], fu)
+    paths = sx_complete(sx_paths(fu, consts, model=m), [], fu)
     rep.require(len(paths) == 1, '_uninit_arrays: expected straight-line code')
     sx = paths[0][1]
     nlen = sym(f'len({lp_})')
@@ -1824,6 +2040,7 @@ def _conjunction(fn):
 
 def check_equality(ctx):
     rep, m = ctx.rep, ctx.model
+    rep._model = m
     fe = m.func(f'{BASE}.AbstractSignatureArray.__eq__')
     rep.functions.add(fe.qualname)
     op = fe.params()[1]
@@ -1932,8 +2149,16 @@ _SL_INIT_ALT = ("\t\tfrom_sigarray = isinstance(signatures, AbstractSignatureArr
                 "\t\tif dtype is None:\n\t\t\tif from_sigarray:\n\t\t\t\tdtype = signatures.dtype\n\t\t\telif self._list:\n\t\t\t\tdtype = self._list[0].dtype\n\t\t\telse:\n\t\t\t\tdtype = self.kmerspec.index_dtype\n\t\tself.dtype = dtype\n")
 _AN_INIT_BODY = ("\t\tif ids is None:\n\t\t\tids = range(len(signatures))\n\t\telif len(ids) != len(signatures):\n\t\t\traise ValueError('Number of ids does not match number of signatures')\n\n"
                  "\t\tif meta is None:\n\t\t\tmeta = SignaturesMeta()\n\n\t\tself.signatures = signatures\n\t\tself.ids = ids\n\t\tself.meta = meta\n")
+_SL_INIT_HELPER = ("\t\tif kmerspec is None and isinstance(signatures, AbstractSignatureArray):\n\t\t\tself.kmerspec = signatures.kmerspec\n\t\telse:\n\t\t\tself.kmerspec = kmerspec\n"
+                   "\t\tself.dtype = self._default_dtype(signatures) if dtype is None else dtype\n\n\tdef _default_dtype(self, signatures):\n"
+                   "\t\tif isinstance(signatures, AbstractSignatureArray):\n\t\t\treturn signatures.dtype\n\t\tif self._list:\n\t\t\treturn self._list[0].dtype\n\t\treturn self.kmerspec.index_dtype\n")
 _AN_INIT_ALT = ("\t\tn = len(signatures)\n\n\t\tif ids is not None and len(ids) != n:\n\t\t\traise ValueError('Number of ids does not match number of signatures')\n\n"
                 "\t\tself.signatures = signatures\n\t\tself.ids = range(n) if ids is None else ids\n\t\tself.meta = SignaturesMeta() if meta is None else meta\n")
+_GIA = ("\t\tout = SignatureArray.uninitialized([self.sizeof(i) for i in indices], self.kmerspec, dtype=self.values.dtype)\n" + "\t\tfor i, idx in enumerate(indices):\n\t\t\tnp.copyto(out[i], self._getitem_int(idx), casting='unsafe')\n")
+_GIA_ACC = ("\t\tspans = []\n\t\tlengths = []\n\t\tfor i in map(self._check_index, indices):\n\t\t\tstop, start = self.bounds[i + 1], self.bounds[i]\n\t\t\tspans.append((start, stop))\n\t\t\tlengths.append(stop - start)\n\n"
+            "\t\tout = SignatureArray.uninitialized(lengths, self.kmerspec, dtype=self.values.dtype)\n\n\t\tfor (start, stop), out_start, out_stop in zip(spans, out.bounds, out.bounds[1:]):\n"
+            "\t\t\tnp.copyto(out.values[out_start:out_stop], self.values[start:stop], casting='unsafe')\n")
+_SL_GETINT = "\tdef _getitem_int(self, i: int):\n\t\treturn self._list[i]\n"
 _SLICE_FAST = "\t\tvalues = self.values[self.bounds[start]:self.bounds[stop]]\n\t\tbounds = self.bounds[start:(stop + 1)] - self.bounds[start]\n"
 _FILL = "\t\tfor i, idx in enumerate(indices):\n\t\t\tnp.copyto(out[i], self._getitem_int(idx), casting='unsafe')\n"
 _SIGEQ = "\treturn len(a1) == len(a2) and all(map(np.array_equal, a1, a2))"
@@ -2122,5 +2347,25 @@ VARIANTS = [
     V('guarded __eq__ returns True for different k-mer parameters', 'B', _B, _EQ,
       "\t\tif not isinstance(other, AbstractSignatureArray):\n\t\t\treturn NotImplemented\n\t\tif self.kmerspec != other.kmerspec:\n\t\t\treturn True\n\t\treturn sigarray_eq(self, other)\n", 'X7'),
     V('E: sizes() as a comprehension', 'E', _B, "np.fromiter(map(self.sizeof, range(len(self))), dtype=int)", "np.array([self.sizeof(i) for i in range(len(self))], dtype=int)"),
+    # ---- third pass
+    V('E: extents read once into lists, sizes and copies taken from them', 'E', _B, _GIA, _GIA_ACC),
+    V('accumulated extents with the two bounds crossed', 'B', _B, _GIA, _GIA_ACC.replace("stop, start = self.bounds[i + 1], self.bounds[i]", "stop, start = self.bounds[i], self.bounds[i + 1]"), 'X5'),
+    V('accumulated extents collected in sorted order', 'B', _B, _GIA, _GIA_ACC.replace("map(self._check_index, indices)", "map(self._check_index, sorted(indices))"), 'X5'),
+    V('accumulated extents: destinations shifted by one bound', 'B', _B, _GIA, _GIA_ACC.replace("zip(spans, out.bounds, out.bounds[1:])", "zip(spans, out.bounds[1:], out.bounds[2:])"), 'X5'),
+    V('accumulated extents: every span is empty', 'B', _B, _GIA, _GIA_ACC.replace("spans.append((start, stop))", "spans.append((start, start))"), 'X5'),
+    V('E: list-backed selection hands a lazy map to the constructor', 'E', _B, "SignatureList([self._list[i] for i in indices], self.kmerspec, self.dtype)", "SignatureList(map(self._list.__getitem__, indices), self.kmerspec, self.dtype)"),
+    V('lazy-map list selection in sorted order', 'B', _B, "SignatureList([self._list[i] for i in indices], self.kmerspec, self.dtype)", "SignatureList(map(self._list.__getitem__, sorted(indices)), self.kmerspec, self.dtype)", 'X5'),
+    V('lazy-map list selection skips the first position', 'B', _B, "SignatureList([self._list[i] for i in indices], self.kmerspec, self.dtype)", "SignatureList(map(self._list.__getitem__, indices[1:]), self.kmerspec, self.dtype)", 'X5'),
+    V('E: SignatureList dtype default in a method of its own', 'E', _B, _SL_INIT_BODY, _SL_INIT_HELPER),
+    V('dtype-default method looks at the first signature before the source collection', 'B', _B, _SL_INIT_BODY,
+      _SL_INIT_HELPER.replace("\t\tif isinstance(signatures, AbstractSignatureArray):\n\t\t\treturn signatures.dtype\n\t\tif self._list:\n\t\t\treturn self._list[0].dtype\n",
+                              "\t\tif self._list:\n\t\t\treturn self._list[0].dtype\n\t\tif isinstance(signatures, AbstractSignatureArray):\n\t\t\treturn signatures.dtype\n"), 'X8'),
+    V('dtype-default method is used even when a dtype is given', 'B', _B, _SL_INIT_BODY, _SL_INIT_HELPER.replace("self._default_dtype(signatures) if dtype is None else dtype", "self._default_dtype(signatures)"), 'X8'),
+    V('E: non-contiguous slices go straight to the index-array path', 'E', _B, "\t\t\treturn super()._getitem_slice(s)\n", "\t\t\treturn self._getitem_int_array(np.arange(start, stop, step))\n"),
+    V('direct index-array path drops the step', 'B', _B, "\t\t\treturn super()._getitem_slice(s)\n", "\t\t\treturn self._getitem_int_array(np.arange(start, stop))\n", 'X4'),
+    V('direct index-array path after the bounds were shifted', 'B', _B, "\t\t\treturn super()._getitem_slice(s)\n", "\t\t\tstart += 1\n\t\t\treturn self._getitem_int_array(np.arange(start, stop, step))\n", 'X4'),
+    V('E: list-backed slices taken by list slicing', 'E', _B, _SL_GETINT, _SL_GETINT + "\n\tdef _getitem_slice(self, index: slice):\n\t\treturn SignatureList(self._list[index], self.kmerspec, self.dtype)\n"),
+    V('list-slicing fast path loses the dtype', 'B', _B, _SL_GETINT, _SL_GETINT + "\n\tdef _getitem_slice(self, index: slice):\n\t\treturn SignatureList(self._list[index], self.kmerspec)\n", 'X5'),
+    V('list-slicing fast path drops the step', 'B', _B, _SL_GETINT, _SL_GETINT + "\n\tdef _getitem_slice(self, index: slice):\n\t\treturn SignatureList(self._list[index.start:index.stop], self.kmerspec, self.dtype)\n", 'X5'),
     V('E: out-of-place conversion', 'E', _I, "\t\t\t\tindex = index.copy()\n\t\t\t\tnp.add(index, len(self), out=index, where=isneg)\n", "\t\t\t\tindex = np.where(isneg, index + len(self), index)\n"),
 ]
